@@ -31,6 +31,8 @@ MOTIFS = {
                                                       (-0.6, -1.2, 0.07)]),
     # nearly collinear: the middle atom is 0.025 A off the axis
     'near-collinear3': (['O', 'C', 'S'], [(0, 0, 0), (1.2, 0.025, 0), (2.7, 0, 0)]),
+    # first pattern atom is a two-letter element whose symbol contains a one-letter element
+    'ClCH': (['Cl', 'C', 'H'], [(0, 0, 0), (1.7, 0, 0), (2.2, 0.95, 0)]),
     'near-collinear4': (['O', 'C', 'S', 'N'], [(0, 0, 0), (1.2, 0.025, 0), (2.7, 0, 0), (3.9, 0.0, 0.01)]),
 }
 
@@ -53,7 +55,20 @@ POSES = {
 }
 
 
+def _x_to(v):
+    v = np.array(v, dtype=float) / np.linalg.norm(v)
+    x = np.array([1.0, 0, 0])
+    ax = np.cross(x, v)
+    ang = np.arccos(np.clip(np.dot(x, v), -1, 1))
+    return SR.from_rotvec(ax / np.linalg.norm(ax) * ang)
+
+
+SPECIAL_POSES = {'diag111': _x_to((1, 1, 1)), 'antidiag111': _x_to((-1, -1, -1)), 'diag1-11': _x_to((1, -1, 1)), 'antidiag1-11': _x_to((-1, 1, -1))}
+
+
 def pose(name):
+    if isinstance(name, str) and name in SPECIAL_POSES:
+        return SPECIAL_POSES[name]
     if isinstance(name, str):
         return SR.from_euler('xyz', POSES[name])
     return SR.from_euler('xyz', list(name))
